@@ -431,11 +431,14 @@ def build(seed, tier, focus='all'):
         for d in c.decls:
             if d["root"] and d["trait"] != "FromMeta":
                 d["max_items"] = min(d["max_items"], 2)
-    if tier == "quick":
+    # element-level roots get 2 attributes x 2 items, except the first two (thorough: six) "deep" roots, which keep
+    # 3 x 3 over a 3-letter (4-letter) alphabet: the attribute walk multiplies every item sequence by its splits and
+    # by the unrelated attributes interleaved with them (3 x 3 over 8 letters is 40 000 states per root)
+    if True:
         deep = 0
         for d in c.decls:
             if d["root"] and d["trait"] != "FromMeta":
-                if deep < 2 and d["max_items"] == 3 and d["max_attrs"] == 3:
+                if deep < (2 if tier == "quick" else 6) and d["max_items"] == 3 and d["max_attrs"] == 3:
                     deep += 1
                     d["deep"] = True
                 else:
@@ -463,7 +466,7 @@ def build(seed, tier, focus='all'):
             else:
                 cap = {1: 80, 2: 45, 3: 18}[d["max_items"]] if not elem else {1: 20, 2: 12, 3: 8}[d["max_items"]]
             if d.pop("deep", False):
-                cap = 3
+                cap = 3 if tier == "quick" else 4
             if any(f["ty"]["k"] == "enum" for f in d["fields"]) and not elem:
                 # every variant's forms stay in the alphabet; three items over that many letters would be 40 000 inputs per root
                 cap = max(cap, 34)
